@@ -363,6 +363,10 @@ class Engine:
             t = value_to_term(norm_value(v))
             if t[0] == 'unk' and op.get('path'):
                 return ('unk', 'const', op['path'])
+            if op.get('ty', '').startswith('&') and t[0] in ('agg', 'c') and not op['ty'].startswith("&'static str") \
+                    and not op['ty'].startswith('&str'):
+                # constant behind a reference (promoted `&Piece::Pawn`, `&[..]`): pointer to constant memory
+                return ('ref', ('K', t))
             if op.get('path') and t[0] in ('c', 'agg'):
                 # remember the name of named constants for reporting only (not part of identity)
                 pass
@@ -402,6 +406,8 @@ class Engine:
         if lv in st.heap:
             return st.heap[lv]
         k = lv[0]
+        if k == 'K':
+            return lv[1]
         if k == 'L':
             fr = st.frames.get(lv[1])
             if fr is None:
@@ -798,6 +804,9 @@ def _deref_arg(eng, st, a):
     """value behind a reference argument"""
     if a[0] == 'ref':
         return eng._read_lv(st, a[1])
+    if a[0] in ('agg', 'c'):
+        # promoted constants (`&Piece::Pawn`) are evaluated through the reference already
+        return a
     return ('der', a)
 
 
@@ -1001,13 +1010,13 @@ def expand_closure(eng, st, clo, cargs):
 def m_eq(eng, st, args, info):
     a = _deref_arg(eng, st, args[0])
     b = _deref_arg(eng, st, args[1])
-    return [(st, struct_eq(a, b))]
+    return [(st, struct_eq(a, b, eng.facts))]
 
 
 def m_ne(eng, st, args, info):
     a = _deref_arg(eng, st, args[0])
     b = _deref_arg(eng, st, args[1])
-    return [(st, unop('Not', struct_eq(a, b), 'bool'))]
+    return [(st, unop('Not', struct_eq(a, b, eng.facts), 'bool'))]
 
 
 def fully_const(t):
@@ -1018,15 +1027,21 @@ def fully_const(t):
     return False
 
 
-def struct_eq(a, b):
+def struct_eq(a, b, facts=None):
     if a == b and fully_const(a):
         return TRUE
     if fully_const(a) and fully_const(b):
         return C(a == b)
+    for x, y in ((a, b), (b, a)):
+        # comparison with a field-less enum constant is a discriminant test
+        if x[0] == 'agg' and x[1] == 'adt' and not x[4] and y[0] != 'agg':
+            d = discr(x, facts)
+            if is_const(d):
+                return ('eqc', ('discr', y), d[1])
     if a[0] == 'agg' and b[0] == 'agg' and a[1] == b[1]:
         if a[3] != b[3]:
             return FALSE
-        parts = [struct_eq(x, y) for (_, x), (_, y) in zip(a[4], b[4])]
+        parts = [struct_eq(x, y, facts) for (_, x), (_, y) in zip(a[4], b[4])]
         if any(p == FALSE for p in parts):
             return FALSE
         parts = [p for p in parts if p != TRUE]
@@ -1191,6 +1206,8 @@ def show(t, depth=0):
         return '&' + show(t[1], d)
     if k == 'L':
         return 'local(%d:%d)' % (t[1], t[2])
+    if k == 'K':
+        return show(t[1], d)
     if k == 'call':
         n = t[1].split('::')[-1] if not t[1].startswith('<') else t[1]
         return '%s%s(%s)' % (n, ('#%d' % t[3]) if t[3] else '', ', '.join(show(a, d) for a in t[2]))
